@@ -101,6 +101,7 @@ package cache
 //@ func (*RepoCache).LocalConfig
 //@   trusted
 //@   modifies nothing
+//@   ensures result != nil
 
 // The goroutine of SubCache.MergeAll folds merge results into the cache. It must not crash whatever the
 // entity layer reports (C07): only results announced as new or updated carry an entity (element invariant of
@@ -201,3 +202,30 @@ package cache
 //@   props C18
 //@   modifies nothing
 //@   opt trusted_frame
+
+// ---- wipe (C14) ------------------------------------------------------------------------------------------
+// entitiesWiped: every bug and identity (refs, cache entries, index documents) has been removed.
+//@ ghost var entitiesWiped bool
+//@ func (*RepoCache).RemoveAll
+//@   trusted
+//@   modifies entitiesWiped, repository.refs, repoWrites
+//@   ensures result == nil ==> entitiesWiped
+//@ func (*RepoCache).IsUserIdentitySet
+//@   props C14
+//@   modifies nothing
+//@   ensures result1 == nil ==> result == ("git-bug.identity" in repository.cfgKeys)
+//@ func (*RepoCache).ClearUserIdentity
+//@   props C14
+//@   requires [identity-set] "git-bug.identity" in repository.cfgKeys
+//@   assume c != nil && c.repo != nil
+//@   modifies repository.cfgKeys, c.userIdentityId, sync.rwheld
+//@   opt trusted_frame
+//@   ensures [cleared] result == nil ==> (forall k string :: { (k in repository.cfgKeys) } (k in repository.cfgKeys) == (old(k in repository.cfgKeys) && !strings.HasPrefix(k, "git-bug.identity")))
+//@   ensures [error]   result != nil ==> repository.cfgKeys == old(repository.cfgKeys)
+//@ func (*RepoCache).LocalStorage
+//@   trusted
+//@   modifies nothing
+//@   ensures result != nil
+//@ func (*RepoCache).Close
+//@   trusted
+//@   modifies repoWrites
